@@ -21,6 +21,7 @@ const (
 	ExitOK Behaviour = iota
 	ExitFail
 	Hang
+	StartFail // the program cannot be started although it is an executable regular file (e.g. its interpreter is missing)
 )
 
 // StartRec is one recorded process start.
@@ -126,6 +127,11 @@ func (c *Cmd) Start() error {
 	c.beh = ExitOK
 	if w.Behaviour != nil {
 		c.beh = w.Behaviour(c.Path)
+	}
+	if c.beh == StartFail {
+		err = &os.PathError{Op: "fork/exec", Path: c.Path, Err: syscall.ENOENT}
+		rec.Err = err.Error()
+		return err
 	}
 	c.Process = &Process{Pid: 1000 + len(w.Starts), cmd: c}
 	return nil
